@@ -418,6 +418,38 @@ def histCase (kind impl : String) (toks : List String) : String :=
               decide (m.s.done.length = t * k)
     if ok then s!"ok linearizable ops={t * k}" else "viol model-monitor"
 
+/-- `fresh q|s <impl> k=K rounds=R seed=S`: R brand-new wrappers, on each K threads make their first call together
+    (distinct insertions; in some rounds the last thread removes), then conservation is checked.  The model runs
+    a sample of the rounds (at most 24) on fresh initial states under the seeded scheduler. -/
+def freshCase (kind impl : String) (toks : List String) : String :=
+  let k := field toks "k"; let rounds := field toks "rounds"; let seed := field toks "seed"
+  if k = 0 then "bad-case" else
+  let sample := List.range (min rounds 24)
+  let fuel := k * 5 * k * 40 + 2048
+  let okAll :=
+    if kind = "q" then
+      let sys := sysQ impl
+      sample.all fun r =>
+        let withRemover := decide (k ≥ 2) && (r + seed) % 3 == 0
+        let scripts : List (List QOp) := (List.range k).map fun g =>
+          if withRemover && g == k - 1 then [QOp.poll]
+          else if g % 2 == 0 then [QOp.offer (Int.ofNat (g + 1))] else [QOp.put (Int.ofNat (g + 1))]
+        let m := simLoop sys k (allDone k) fuel { s := initState sys, scripts := scripts, rng := seed + r + 1, cyclic := k }
+        let ops := m.s.lin.map (·.op); let rets := m.s.lin.map (·.ret)
+        decide (okVals rets ++ m.s.obj = acceptedQ ops rets) && decide ((seqRun sys.apply [] ops).2 = rets) &&
+        decide (m.s.done.length = k)
+    else
+      let sys := sysS impl
+      sample.all fun r =>
+        let withRemover := decide (k ≥ 2) && (r + seed) % 3 == 0
+        let scripts : List (List SOp) := (List.range k).map fun g =>
+          if withRemover && g == k - 1 then [SOp.pop] else [SOp.push (Int.ofNat (g + 1))]
+        let m := simLoop sys k (allDone k) fuel { s := initState sys, scripts := scripts, rng := seed + r + 1, cyclic := k }
+        let ops := m.s.lin.map (·.op); let rets := m.s.lin.map (·.ret)
+        decide ((okVals rets ++ m.s.obj).mergeSort (· ≤ ·) = (acceptedS ops rets).mergeSort (· ≤ ·)) &&
+        decide ((seqRun sys.apply [] ops).2 = rets) && decide (m.s.done.length = k)
+  if okAll then s!"ok rounds={rounds}" else "viol model-monitor"
+
 def splitHead (line : String) : String × String :=
   match line.splitOn ": " with
   | [h] => (h, "")
@@ -434,6 +466,7 @@ def handle (line : String) : String :=
   | "seq" :: "s" :: impl :: _ => seqCase (sysS impl) parseSOp body
   | "stress" :: kind :: impl :: _ => stressCase kind impl toks
   | "hist" :: kind :: impl :: _ => histCase kind impl toks
+  | "fresh" :: kind :: impl :: _ => freshCase kind impl toks
   | _ => "bad-case"
 
 /-- spec-level oracle.  Sequential cases: the ideal deque.  Concurrent cases: the harness monitors print
